@@ -19,6 +19,7 @@ from dsim.core import Trace
 from dsim.core import b2s
 from dsim.core import s2b
 from dsim.streams import SimStream
+from dsim.streams import SimStreamInto
 from refmodels import multipart_gen as mg
 
 
@@ -164,6 +165,8 @@ class FormLimits(Scenario):
                 "max_read": rng.choice([0, 0, 0, 1, 13, 1000]),
                 "truncate": rng.randrange(0, n + 1) if faults and n and rng.random() < 0.5 else None,
                 "fail_at": [rng.randrange(0, 6)] if faults and rng.random() < 0.5 else [],
+                "readinto": rng.random() < 0.5,
+                "error": rng.choice(["oserror", "timeout", "reset", "broken_pipe"]),
             }
         )
         return case
@@ -186,7 +189,9 @@ class FormLimits(Scenario):
             if isinstance(trunc, int) and framing in ("declared",):
                 data = body[: max(0, trunc)]
             fail_at = [int(x) for x in case.get("fail_at", []) if isinstance(x, int)]
-        sim = SimStream(data, Tape(case.get("tape")), fail_at=fail_at, max_read=int(case.get("max_read", 0) or 0), hang_calls=4 * len(body) + 400)
+        stream_cls = SimStreamInto if case.get("readinto") else SimStream
+        sim = stream_cls(data, Tape(case.get("tape")), fail_at=fail_at, max_read=int(case.get("max_read", 0) or 0), hang_calls=4 * len(body) + 400,
+                         error=case.get("error") if case.get("error") in ("oserror", "timeout", "reset", "broken_pipe") else "oserror")
         environ = {
             "REQUEST_METHOD": "POST",
             "SERVER_NAME": "localhost",
